@@ -522,10 +522,22 @@ def _work(batch):
     return out
 
 
-def replay_all(tasks, nproc=14):
+def warm_up():
+    """Import the engine, both REST front ends and build the shared StateLint in the parent, so that the
+    forked replay processes inherit them instead of importing everything again (1-2 s each)."""
+    from vsim import world as W          # noqa: F401  (sets up sys.path, the fake pika, the virtual clock)
+    _share_statelint()
+    try:
+        import asl_workflow_engine.rest_api          # noqa: F401
+    except Exception:
+        pass
+
+
+def replay_all(tasks, nproc=12):
     """tasks: [(oid, front, [cid])] -> {oid: (steps, truncated, error)}"""
     if not tasks:
         return {}
+    warm_up()
     res = {}
     if len(tasks) < 40 or nproc <= 1:
         for r in _work(tasks):
